@@ -227,7 +227,13 @@ fn report_json(rep: &RunReport, want_trace: bool) -> serde_json::Map<String, Val
         let t: Vec<Value> = rep
             .insns
             .iter()
-            .map(|r| json!([r.pc, r.depths]))
+            .map(|r| match &r.registers {
+                Some(regs) => {
+                    let rv: Vec<Value> = regs.iter().map(variant_to_json).collect();
+                    json!([r.pc, r.depths, rv])
+                }
+                None => json!([r.pc, r.depths]),
+            })
             .collect();
         m.insert("trace".into(), json!(t));
     }
@@ -303,6 +309,7 @@ fn do_run(req: &Value) -> Value {
     let options = VerifOptions {
         budget: req["budget"].as_u64().unwrap_or(200_000),
         trace_instructions: want_trace,
+        trace_registers: req["regs"].as_bool().unwrap_or(false),
         dump_at_statements: req["dumps"].as_bool().unwrap_or(false),
         max_dumps: req["max_dumps"].as_u64().unwrap_or(400) as usize,
         dump_final: req["dump_final"].as_bool().unwrap_or(false),
